@@ -53,7 +53,9 @@ class AppSim:
         self.vl = vl or VLoop()
         self.face = net.MemFace()
         self.face.local = local
-        if frontend == 'v2':
+        if frontend == 'v2' and registerer == 'default':
+            self.app = v2_mod.NDNApp(face=self.face)      # whatever registerer the library installs by default
+        elif frontend == 'v2':
             self.app = v2_mod.NDNApp(face=self.face, registerer=registerer or NullRegisterer())
         else:
             self.app = legacy_mod.NDNApp(face=self.face, keychain=KeychainDigest())
